@@ -251,6 +251,16 @@ func C09(c *core.Ctx) error {
 	// root-level and file-level faults
 	add("unknown configuration key at the top level", true, func(root core.M, pcs, ics []core.M, files map[string]string, s *c09scn) { root["no-such-key"] = true })
 	add("unknown template at the top level", true, func(root core.M, pcs, ics []core.M, files map[string]string, s *c09scn) { root["template"] = "nosuchstyle" })
+	// two mocks share a file: whichever of them names the unknown formatter, the run is invalid
+	for _, which := range []string{"IA", "IA2"} {
+		which := which
+		add("unknown formatter on "+which+" of two interfaces sharing one file", true, func(root core.M, pcs, ics []core.M, files map[string]string, s *c09scn) {
+			root["packages"].(core.M)[P("a")].(core.M)["interfaces"].(core.M)[which] = core.M{"config": core.M{"formatter": "prettier"}}
+		})
+		add("unknown formatter in the second configs entry of "+which, true, func(root core.M, pcs, ics []core.M, files map[string]string, s *c09scn) {
+			root["packages"].(core.M)[P("a")].(core.M)["interfaces"].(core.M)[which] = core.M{"configs": []core.M{{"structname": "First" + which}, {"structname": "Second" + which, "formatter": "prettier"}}}
+		})
+	}
 	add("unknown formatter at the top level", true, func(root core.M, pcs, ics []core.M, files map[string]string, s *c09scn) { root["formatter"] = "prettier" })
 	add("invalid exclude-subpkg-regex at the top level with a recursive package", true, func(root core.M, pcs, ics []core.M, files map[string]string, s *c09scn) {
 		root["exclude-subpkg-regex"] = []any{"("}
